@@ -4,13 +4,16 @@ import (
 	"bytes"
 	"encoding/json"
 	"fmt"
+	"math"
 	"math/big"
+	"os"
 	"testing"
 
 	"github.com/golang/protobuf/proto"
 	"pgregory.net/rapid"
 
 	"github.com/xuperchain/xupercore/bcs/ledger/xledger/state/utxo/txhash"
+	"github.com/xuperchain/xupercore/bcs/ledger/xledger/state/xmodel"
 	pb "github.com/xuperchain/xupercore/bcs/ledger/xledger/xldgpb"
 	"github.com/xuperchain/xupercore/protos"
 
@@ -26,7 +29,7 @@ type c09Mutant struct {
 func c09Clone(tx *pb.Transaction) *pb.Transaction { return proto.Clone(tx).(*pb.Transaction) }
 
 // c09Mutants derives the mutants whose rejection the statement demands unambiguously.
-func c09Mutants(tx *pb.Transaction, spec *hx.TxSpec, resp *protos.InvokeResponse) []c09Mutant {
+func c09Mutants(tx *pb.Transaction, spec *hx.TxSpec, resp *protos.InvokeResponse, victim *hx.UTXO) []c09Mutant {
 	var out []c09Mutant
 	baseDigest, _ := txhash.MakeTxDigestHash(tx)
 	add := func(kind string, m *pb.Transaction) {
@@ -97,12 +100,64 @@ func c09Mutants(tx *pb.Transaction, spec *hx.TxSpec, resp *protos.InvokeResponse
 			break
 		}
 	}
+	// declared limits at the far end of the integer range (a limit check written as a subtraction wraps there)
+	for i, rl := range tx.ContractRequests[0].ResourceLimits {
+		if rl.Limit > 0 {
+			for _, v := range []int64{math.MinInt64, math.MinInt64 + 1, -1} {
+				m := c09Clone(tx)
+				m.ContractRequests[0].ResourceLimits[i].Limit = v
+				add("resource-limit-negative", m)
+			}
+		}
+	}
+	// somebody else's output smuggled in FRONT of the contract's own inputs, declared contract-spent, and collected
+	if victim != nil && len(resp.UtxoInputs) > 0 {
+		vin := &protos.TxInput{RefTxid: victim.Txid, RefOffset: victim.Off, FromAddr: []byte(victim.Addr), Amount: victim.Amount.Bytes(), FrozenHeight: victim.Frozen}
+		for _, front := range []bool{true, false} {
+			m := c09Clone(tx)
+			claimed, err := xmodel.ParseContractUtxoInputs(m)
+			if err != nil || len(claimed) == 0 {
+				break
+			}
+			if front {
+				claimed = append([]*protos.TxInput{vin}, claimed...)
+				m.TxInputs = append([]*protos.TxInput{vin}, m.TxInputs...)
+			} else {
+				claimed = append(claimed, vin)
+				m.TxInputs = append(m.TxInputs, vin)
+			}
+			val, _ := xmodel.MarshalMessages(claimed)
+			for _, oe := range m.TxOutputsExt {
+				if oe.Bucket == hx.TransientBucket && string(oe.Key) == "ContractUtxo.Inputs" {
+					oe.Value = val
+				}
+			}
+			m.TxOutputs = append(m.TxOutputs, &protos.TxOutput{ToAddr: []byte(hx.Ring[spec.From].Address), Amount: victim.Amount.Bytes()})
+			add("foreign-output-declared-contract-spent", m)
+		}
+	}
 	feeIdx, payIdx := -1, -1
 	for i, o := range tx.TxOutputs {
 		if string(o.ToAddr) == hx.FeeAddr {
 			feeIdx = i
 		} else if string(o.ToAddr) == hx.Ring[spec.From].Address && payIdx < 0 {
 			payIdx = i
+		}
+	}
+	if feeIdx >= 0 && payIdx >= 0 {
+		// nothing is paid at all and the declared limit sits at the far negative end (no overflow in "fee - gas")
+		for i, rl := range tx.ContractRequests[0].ResourceLimits {
+			if rl.Limit > 0 {
+				for _, v := range []int64{math.MinInt64 + 1, math.MinInt64 + 2} {
+					m := c09Clone(tx)
+					m.ContractRequests[0].ResourceLimits[i].Limit = v
+					f := new(big.Int).SetBytes(m.TxOutputs[feeIdx].Amount)
+					p := new(big.Int).SetBytes(m.TxOutputs[payIdx].Amount)
+					m.TxOutputs[payIdx].Amount = p.Add(p, f).Bytes()
+					m.TxOutputs = append(m.TxOutputs[:feeIdx:feeIdx], m.TxOutputs[feeIdx+1:]...)
+					add("resource-limit-negative-no-fee", m)
+				}
+			}
 		}
 	}
 	if feeIdx >= 0 && payIdx >= 0 {
@@ -178,7 +233,18 @@ func runPtx(nm *hx.NodeMachine, spec *hx.TxSpec, c *hx.Collector, fs *hx.Finding
 		nm.Stat["generator-produced-inadmissible-spec"]++
 		return nil
 	}
-	for _, m := range c09Mutants(tx, spec, resp) {
+	// an unspent, unfrozen output of somebody who signs nothing here
+	var victim *hx.UTXO
+	ps := nm.PoolState()
+	for k := 1; k < 5 && victim == nil; k++ {
+		for _, u := range ps.UtxosOf(hx.Ring[(spec.From+k)%5].Address) {
+			if u.Frozen == 0 && u.Amount.Sign() > 0 {
+				victim = u
+				break
+			}
+		}
+	}
+	for _, m := range c09Mutants(tx, spec, resp, victim) {
 		if fs.Active("C09-contract-utxo-outputs-unchecked") && (m.Kind == "contract-transfer-redirected" || m.Kind == "contract-transfer-amount-lowered") {
 			nm.Stat["excluded:C09-contract-utxo-outputs-unchecked"]++
 			continue
@@ -190,7 +256,9 @@ func runPtx(nm *hx.NodeMachine, spec *hx.TxSpec, c *hx.Collector, fs *hx.Finding
 		if admitted {
 			return fmt.Errorf("mutant %q of the pre-executed transaction was admitted: base %s; mutant %s", m.Kind, hx.DescribeTx(tx), hx.DescribeTx(m.Tx))
 		}
-		_ = why
+		if os.Getenv("C09_DEBUG") != "" && m.Kind == "resource-limit-negative" {
+			fmt.Printf("C09_DEBUG %s refused: %v limits=%v\n", m.Kind, why, m.Tx.ContractRequests[0].ResourceLimits)
+		}
 	}
 	if err := nm.CheckState(); err != nil {
 		return fmt.Errorf("refused mutants left a trace: %v", err)
